@@ -13,4 +13,8 @@ PROFILE = {
 
 
 def run(ctx, res):
-    pipeprop.run(ctx, res, "C04", PROFILE, n_quick=400, n_thorough=6000, probe_ids=("F15", "F20", "F23"))
+    import scenarios
+    fam = [c for c in scenarios.family_a() if any(st[0] == "summarize" for st in c["pipe"]["steps"])]
+    fam = [] if ctx.replay else scenarios.pick(fam, 300 if ctx.tier == "quick" else 10 ** 6, ctx.seed)
+    pipeprop.run(ctx, res, "C04", PROFILE, n_quick=300, n_thorough=6000, probe_ids=("F15", "F20", "F23"), extra_cases=fam)
+    res.coverage["scenario_grid"] = {"family": "A restricted to pipelines with summarize", "cases": len(fam)}
